@@ -27,11 +27,20 @@ Local Open Scope N_scope.
    thing known about it is that it visits every key exactly once. *)
 Record Env := MkEnv {
   order : list string -> list string;
+  now : N;                                  (* the server's wall clock when the entry is applied *)
   order_perm : forall l, Permutation (order l) l
 }.
 
-Definition env_id : Env := MkEnv (fun l => l) (fun l => Permutation_refl l).
-Definition env_rev : Env := MkEnv (@rev string) (fun l => Permutation_sym (Permutation_rev l)).
+Definition env_id : Env := MkEnv (fun l => l) 100 (fun l => Permutation_refl l).
+Definition env_rev : Env := MkEnv (@rev string) 7777 (fun l => Permutation_sym (Permutation_rev l)).
+Definition rot (l : list string) : list string := match l with [] => [] | x :: t => t ++ [x] end.
+Lemma rot_perm l : Permutation (rot l) l.
+Proof. destruct l as [|x t]; cbn; [reflexivity|]. symmetry. apply Permutation_cons_append. Qed.
+Definition env_rot : Env := MkEnv rot 31 rot_perm.
+
+(* the entries of a Go map in the order this environment visits them *)
+Definition ordered_items {A} (e : Env) (m : gmap string A) : list (string * A) :=
+  omap (fun k => (fun v => (k, v)) <$> m !! k) (order e (elements (dom m))).
 
 (* ---------- manual virtual IPs ---------- *)
 Record vip := Vip {
@@ -151,9 +160,29 @@ Definition prune_old_upstreams (idx : N) (downstream : string) (inserted : gset 
            (old : list string) (t : topo) : topo :=
   foldl (prune_step idx downstream inserted) t old.
 
+(* updateMeshTopology as a whole: one row per upstream of the new registration (a slice, in order),
+   then the pruning loop over the map of the previous registration's upstreams *)
+Definition add_upstream (idx : N) (downstream : string) (t : topo) (u : string) : topo :=
+  t <| t_rows ::= fun r => {[ (u, downstream) ]} ∪ r |> <| t_index ::= index_max idx |>.
+Definition update_mesh_topology (e : Env) (idx : N) (downstream : string) (news : list string)
+           (old : gset string) (t : topo) : topo :=
+  let t1 := foldl (add_upstream idx downstream) t news in
+  prune_old_upstreams idx downstream (list_to_set news) (order e (elements old)) t1.
+
 (* ---------- tagged addresses of a terminating gateway ---------- *)
 Definition merge_tagged (addrs : list (string * (string * N))) (m : gmap string (string * N))
   : gmap string (string * N) := foldl (fun m kv => <[kv.1 := kv.2]> m) m addrs.
+
+(* ensureServiceTxn: svc.TaggedAddresses[key] = addr for every entry of the map addrs *)
+Definition ensure_tagged (e : Env) (addrs m : gmap string (string * N)) : gmap string (string * N) :=
+  merge_tagged (ordered_items e addrs) m.
+
+(* updateTerminatingGatewayVirtualIPs: a fresh map gets the non-virtual entries of the instance's
+   tagged addresses, then the gateway's virtual addresses (all their keys carry the virtual prefix) *)
+Definition is_virtual_key (k : string) : bool := String.prefix "consul-virtual:" k.
+Definition update_tgw_tagged (e1 e2 : Env) (addrs existing : gmap string (string * N)) : gmap string (string * N) :=
+  merge_tagged (ordered_items e2 addrs)
+    (merge_tagged (filter (fun kv => negb (is_virtual_key kv.1)) (ordered_items e1 existing)) ∅).
 
 (* ---------- error texts built from the keys of a map ---------- *)
 (* validateMetadata: the keys are collected (in map order) and sorted; the first invalid pair in that
